@@ -192,6 +192,7 @@ func ShowPage(p *sdb.VerifPage) []string {
 type MemPager struct {
 	Data      []byte
 	FailPages map[int]bool
+	ZeroPages map[int]bool // pages that read as all zero bytes (a lost write, a hole): no error from the pager
 	FailAt    int  // fail the read with this 1-based ordinal (0 = never)
 	Short     bool // the injected failure is a short read (io.EOF) instead of an I/O error
 	Reads     int
@@ -213,6 +214,9 @@ func (m *MemPager) Page(n int, pagesize int) ([]byte, error) {
 	off := int64(n-1) * int64(pagesize)
 	if off < 0 || off >= int64(len(m.Data)) {
 		return buf, io.EOF
+	}
+	if m.ZeroPages[n] && off+int64(pagesize) <= int64(len(m.Data)) {
+		return buf, nil
 	}
 	c := copy(buf, m.Data[off:])
 	if c < pagesize {
